@@ -82,7 +82,8 @@ type stub struct {
 func (w *World) dialHook(url string) (pb.GossipAPIClient, error) {
 	n := w.nodeByURL(url)
 	if n == nil {
-		return nil, fmt.Errorf("simnet: unknown url %q", url)
+		// dialling never fails up front (gRPC connects lazily): calls to nowhere fail later
+		return &stub{net: w.Net, to: w.nowhere()}, nil
 	}
 	return &stub{net: w.Net, to: n}, nil
 }
